@@ -529,10 +529,19 @@ impl<'a> G<'a> {
 
     fn add_histories(&mut self, node: &mut Node, depth: usize) {
         let real_children = node.children.iter().filter(|c| !c.kind.is_history()).count();
-        if depth > 0 && real_children > 0 && self.pm(self.p.history) {
+        // one history, sometimes a second one of the other type in the same parent
+        let mut first_deep: Option<bool> = None;
+        let rounds = if depth > 0 && real_children > 0 && self.pm(self.p.history) { if self.rng.chance(1, 4) { 2 } else { 1 } } else { 0 };
+        for round in 0..rounds {
             let hid = format!("h{}", self.n + 1);
             self.n += 1;
-            let deep = self.pm(500);
+            let deep = match first_deep {
+                Some(d) => !d,
+                None => self.pm(500),
+            };
+            if round == 0 {
+                first_deep = Some(deep);
+            }
             let mut h = Node::new(&hid, if deep { Kind::HistoryDeep } else { Kind::HistoryShallow });
             // default transition: legal targets (children for shallow, descendants for deep)
             let mut cands: Vec<String> = Vec::new();
@@ -789,6 +798,23 @@ impl<'a> G<'a> {
         }
         if node.kind == Kind::Final && depth > 1 && self.pm(self.p.donedata) && dm != Dm::Null {
             let e = self.int_expr();
+            // half of the time the final state's own onentry changes what the donedata reads: the data of
+            // done.state.<parent> are evaluated after the onentry content has run
+            let read_var: Option<String> = match &e {
+                Expr::Var(v) => Some(v.clone()),
+                Expr::Add(a, _) => match a.as_ref() {
+                    Expr::Var(v) => Some(v.clone()),
+                    _ => None,
+                },
+                _ => None,
+            };
+            if let Some(v) = read_var {
+                if v != "budget" && self.rng.chance(1, 2) {
+                    let bump = Exec::Assign { loc: v.clone(), expr: Expr::Add(Box::new(Expr::Var(v)), Box::new(Expr::Int(3))) };
+                    let tag = self.mark("fin");
+                    node.onentry.push(vec![tag, bump]);
+                }
+            }
             node.donedata = Some(DoneData { params: vec![("v".into(), e)] });
         }
         let mut anc = ancestors.to_vec();
